@@ -428,6 +428,10 @@ def scenarios(ctx):
             if d < iv:
                 scs.append(ka_scenario(iv, to, [1, 1], extra_pongs=[2 * iv + d]))
                 scs.append(ka_scenario(iv, to, [to, 1, 1], extra_pongs=[3 * iv + d], sched="1"))
+        # a pong in the very tick of its ping (coarse clock, fast peer: both stamps EQUAL), then silence: still detected
+        for lats in ([0, INF], [0, 0, INF], [0, 1, INF], [1, 0, INF]):
+            scs.append(ka_scenario(iv, to, lats, sched="1111", tail_responsive=False))
+        scs.append(ka_scenario(iv, to, [0, 0, 0], sched="1111"))
         # silent from the first ping on; from the second ping on; with a data frame just before the pings
         for lats in ([INF], [1, INF], [INF, INF, INF]):
             for data in ((), (to - 200,), (2 * iv - 200,), (iv + 1, 2 * iv + 1)):
